@@ -322,6 +322,10 @@ def run_check(mod, pid, tier, seed, args, workdir, t0):
     n_viol = n_corr = 0
     n_skip = 0
     project = getattr(mod, "project", lambda c, res, dec: res)
+    _fm = getattr(mod, "for_model", None)
+
+    def for_model(c, impl):
+        return json.loads(json.dumps(_fm(c, impl), default=str)) if _fm else impl
     for r in recs:
         c, impl, dec = r["case"], r["impl"], r["dec"]
         h = case_hash(c)
@@ -362,13 +366,13 @@ def run_check(mod, pid, tier, seed, args, workdir, t0):
                 n_viol += 1
                 if first_viol is None:
                     first_viol = (c, impl, dec)
-            elif impl != dec.get("model"):
+            elif for_model(c, impl) != dec.get("model"):
                 n_corr += 1
                 if first_corr is None:
                     first_corr = (c, impl, dec)
         else:
             n_out += 1
-            if impl != dec.get("model"):
+            if for_model(c, impl) != dec.get("model"):
                 drift += 1
                 if len(notes) < 3:
                     notes.append({"model_drift_outside_domain": c, "impl": impl, "model": dec.get("model")})
